@@ -323,12 +323,15 @@ impl Decoder for DownlinkOperationDecoder {
     fn decode(&mut self, src: &mut bytes::BytesMut) -> Result<Option<Self::Item>, Self::Error> {
         if src.remaining() >= LEN_SIZE {
             let len = src.as_ref().get_u64() as usize;
-            if src.remaining() >= len + LEN_SIZE {
+            let required = len.checked_add(LEN_SIZE).ok_or_else(|| {
+                std::io::Error::new(std::io::ErrorKind::InvalidData, "Invalid frame length.")
+            })?;
+            if src.remaining() >= required {
                 src.advance(LEN_SIZE);
                 let body = src.split_to(len).freeze();
                 Ok(Some(DownlinkOperation { body }))
             } else {
-                src.reserve(LEN_SIZE + len);
+                src.reserve(required);
                 Ok(None)
             }
         } else {
